@@ -623,7 +623,8 @@ struct Catalogue {
 	bool thorough;
 	std::vector<std::string> specials;     // target-specific interesting values (p, q, p-1 ... in the wire encoding)
 	size_t byte_limit;                      // inputs up to this size get the byte-level catalogue at every offset
-	Catalogue() : thorough(false), byte_limit(0) {}
+	size_t pair_window, pair_max_fields;    // two fields i < j <= i + pair_window set to {0, special 0, negated} each (inputs with <= pair_max_fields fields)
+	Catalogue() : thorough(false), byte_limit(0), pair_window(0), pair_max_fields(0) {}
 
 	static std::string big(size_t bits)
 	{
@@ -740,6 +741,28 @@ struct Catalogue {
 					for (size_t d = 0; thorough && d < delims.size(); d++)
 						if (delims[d] != x.delim)
 							emit(fid + ":delim" + drv::str(d), "delimiter", pre + field + std::string(1, delims[d]) + post);
+				}
+			}
+		}
+		// pairs of fields (a crash often needs two cooperating values: a zero base and a negative exponent, ...)
+		if (pair_window)
+		{
+			std::vector<Field> F = split_fields(seed, delims);
+			if (F.size() <= pair_max_fields)
+			{
+				static const char *pn[] = { "0", "s", "neg" };
+				for (size_t i = 0; i < F.size(); i++)
+				for (size_t j = i + 1; j < F.size() && j <= i + pair_window; j++)
+				for (int a = 0; a < 3; a++)
+				for (int b = 0; b < 3; b++)
+				{
+					if ((a == 1 || b == 1) && specials.empty()) continue;
+					std::string fi = seed.substr(F[i].beg, F[i].len), fj = seed.substr(F[j].beg, F[j].len);
+					std::string vi = a == 0 ? "0" : a == 1 ? specials[0] : ((!fi.empty() && fi[0] == '-') ? fi.substr(1) : "-" + fi);
+					std::string vj = b == 0 ? "0" : b == 1 ? specials[0] : ((!fj.empty() && fj[0] == '-') ? fj.substr(1) : "-" + fj);
+					std::string out = seed.substr(0, F[i].beg) + vi + seed.substr(F[i].beg + F[i].len, F[j].beg - F[i].beg - F[i].len) + vj +
+						seed.substr(F[j].beg + F[j].len);
+					emit("p" + drv::str(i) + "." + drv::str(j) + ":" + pn[a] + "." + pn[b], std::string("pair-") + pn[a] + "-" + pn[b], out);
 				}
 			}
 		}
@@ -922,7 +945,8 @@ struct Runner {
 	{
 		// the seed itself (sanity: a valid export / transcript must be accepted, else the harness is wrong)
 		std::string cid0 = T.name + "/" + T.seedname + "/seed";
-		if (R.args.only.empty() || R.args.only == cid0)
+		bool my_seed = R.args.only.empty() ? (fnv(cid0) % R.args.nshards) == R.args.shard : R.args.only == cid0;
+		if (my_seed)
 		{
 			Res r0 = F.run([&]() { return T.run(T.seed); });
 			bool good = T.expect_accept ? r0.kind == Res::ACCEPTED : !r0.violation();
@@ -931,7 +955,7 @@ struct Runner {
 				if (r0.violation())
 				{
 					// the valid input itself crashes the library: a violation, not a harness error
-					if (R.args.shard == 0) record(T, cid0, "valid-seed", T.seed, r0);
+					record(T, cid0, "valid-seed", T.seed, r0);
 				}
 				else
 				{
@@ -940,7 +964,7 @@ struct Runner {
 				}
 				return;
 			}
-			R.counters["seeds"] += (R.args.shard == 0) ? 1 : 0;
+			R.counters["seeds"]++;
 		}
 		std::vector<Pending> P;
 		size_t bytes = 0, nth = 0;
